@@ -303,6 +303,45 @@ var Names = deriveKeys(registry)
 
 // Sorted as well, through two derived functions.
 var Sorted = deriveSort(deriveKeys(registry))
+
+func glue(a int, b string, c float64) string { return b }
+
+// Curried has the type of a derived function as well.
+var Curried = deriveCurry(glue)
+`
+
+// a package WITHOUT derive calls that only passes on what xbase exports: it is never an argument of the run
+const xmid = `package xmid
+
+import "ambig/xbase"
+
+var (
+	Names  = xbase.Names
+	Sorted = xbase.Sorted
+	C      = xbase.Curried
+)
+`
+
+// packages that reach xbase only THROUGH xmid (W-C15-A): generated in one run with xbase, xbase has to come first although
+// the package in between is not named; xabove sorts before xbase by import path, xfar after it
+const xabove = `package xabove
+
+import "ambig/xmid"
+
+var Glue = deriveUncurry(xmid.C)
+
+func Known(name string) bool { return deriveContains(xmid.Names, name) }
+`
+
+const xfar = `package xfar
+
+import "ambig/xmid"
+
+var SortedNames = deriveSort(xmid.Names)
+
+func First() string { return deriveMin(xmid.Sorted, "") }
+
+func Lens() []int { return deriveFmap(func(s string) int { return len(s) }, xmid.Names) }
 `
 
 const xtop = `package xtop
@@ -682,6 +721,12 @@ func genHistories() {
 		}
 		h(pkg, "history", now, before)
 	}
+	// the current version has NO derive call any more: the old derived.gen.go must go
+	settings := "package PKG\n\ntype Settings struct {\n\tName string\n\tTags []string\n}\n\nfunc Same(a, b *Settings) bool { return deriveEqual(a, b) }\n\nfunc H(a *Settings) uint64 { return deriveHash(a) }\n"
+	h("hgone1", "history", map[string]string{"s.go": "package PKG\n\n// Settings and the calls on it are gone.\nfunc Version() int { return 2 }\n"}, map[string]string{"s.go": settings})
+	h("hgone2", "history", map[string]string{"s.go": "package PKG\n\ntype Settings struct {\n\tName string\n}\n\nfunc Same(a, b *Settings) bool { return *a == *b }\n"}, map[string]string{"s.go": settings})
+	h("hgone3", "history", map[string]string{"s.go": "package PKG\n\nfunc Version() int { return 2 }\n", "t_test.go": "package PKG\n\nimport \"testing\"\n\nfunc TestV(t *testing.T) {\n\tif Version() != 2 {\n\t\tt.Fatal()\n\t}\n}\n"},
+		map[string]string{"s.go": settings, "t_test.go": "package PKG\n\nimport \"testing\"\n\nfunc TestV(t *testing.T) {\n\tif !deriveEqual(&Settings{}, &Settings{}) {\n\t\tt.Fatal()\n\t}\n}\n"})
 	// a hand-written function that is never called bears the name a HELPER had in the old derived.gen.go; its file sorts
 	// after / before derived.gen.go
 	withList := "package PKG\n\ntype S struct {\n\tA int\n\tL []string\n}\n\nfunc Same(a, b *S) bool { return deriveEqual(a, b) }\n"
@@ -719,6 +764,9 @@ func main() {
 	add("xbase", "flow-base", "ok", xbase)
 	add("xtop", "flow-top", "any", xtop)
 	add("xonly", "flow-top", "any", xonly)
+	add("xmid", "flow-mid", "any", xmid)
+	add("xabove", "flow-top", "any", xabove)
+	add("xfar", "flow-top", "any", xfar)
 	add("hbase", "history-base", "ok", hbase)
 	add("htop", "history-top", "ok", htop)
 	add("testonly", "calls-only-in-test-file-and-second-pass", "ok", testonly)
